@@ -25,10 +25,13 @@ META = {
                   '(datainfo / readonly / constant of an entry are those of the Param the dispatcher resolves for that name), '
                   'flags_predict (+ _readonly / _writable), constant_reads, undescribed_unreachable (read / change / do / '
                   'activate => NoSuch..., no call, node unchanged, nothing subscribed) + undescribed_module_unreachable, '
-                  'describe_stable (any history), emits_importable and described_datainfo_equiv relative to the stated '
-                  'datatype-oracle laws.  Tied to secnode.py / params.py / dispatcher.py by a correspondence run (model report '
+                  'describe_stable (any history), emits_importable / emits_importable_history (updates emitted by change AND read, '
+                  'along any history) and described_datainfo_equiv relative to the stated datatype-oracle laws, '
+                  'class_props_derived (interface class = highest SECoP base class of the class chain, features = direct Feature '
+                  'mixins; derived by the model from the MRO given as data).  Tied to secnode.py / params.py / dispatcher.py by a correspondence run (model report '
                   '= real report) and report-vs-behaviour monitors on generated nodes and on the shipped configurations.',
-    'level_note': 'Trusted: Lean kernel + axioms; the datatype layer is an oracle (C01-C03): emits_importable and '
+    'level_note': 'Trusted: Lean kernel + axioms; the order test of a LimitsType pair is classified with the limit checks (not '
+                  'expressible in the described tuple datainfo); the datatype layer is an oracle (C01-C03): emits_importable and '
                   'described_datainfo_equiv are proved relative to explicit oracle laws and the corresponding facts are tested '
                   'on the implementation with the real client datatypes; property lists (description, group, visibility, '
                   'implementation, interface_classes, features) are data taken from the real objects; strict JSON of the report '
@@ -40,7 +43,7 @@ META = {
         'shipped configurations: driver calls are not observed there (only replies and subscriptions)',
     ],
     'modelled_not_verified': [
-        'implementation / interface_classes / features (computed from the MRO; compared as data)',
+        'implementation (compared as data); the MRO itself (Python C3 linearisation) is data from the real class',
         'main-unit substitution ($) — the datainfo is taken after configuration',
         'json.dumps of the report (strictness is tested on the implementation)',
     ],
@@ -194,7 +197,9 @@ def run_node(rng, node, box, nodespec, classes):
         node.disconnect(conn)
     dichecks, imports = client_verdicts(rng, node, desc1, nodespec, rec)
     desc2 = node.describe()
-    return {'rec': rec, 'report1': rep1, 'report2': report_json(desc2), 'activates': activates,
+    classes = [{'m': mname, 'ic': list(md.get('interface_classes', [])), 'features': list(md.get('features', []))}
+               for mname, md in desc1['modules'].items()]
+    return {'rec': rec, 'classes': classes, 'report1': rep1, 'report2': report_json(desc2), 'activates': activates,
             'dichecks': dichecks, 'imports': imports, 'strict': strict}
 
 
@@ -294,7 +299,7 @@ def to_requests(data):
     rec = data['rec']
     base = {'p': PID, 'node': rec['node'], 'oracle': rec['oracle']}
     return [dict(base, k='describe'),
-            dict(base, k='judge', report1=data['report1'], report2=data['report2'],
+            dict(base, k='judge', report1=data['report1'], report2=data['report2'], classes=data['classes'],
                  steps=[{'req': s['req'], 'obs': s['obs']} for s in rec['steps']],
                  activates=[{'m': a['m'], 'a': a['a'], 'reply': a['reply'], 'subsChanged': a['subsChanged']}
                             for a in data['activates'] if not a['bare']],
@@ -347,6 +352,11 @@ def evaluate(ctx, res, label, case, data, model, judge):
         mm = [(a, b) for a, b in zip(norm_report(model['report']), norm_report(data['report1'])) if a != b][:1]
         res.disagreements.append({'case': case, 'model': mm[0][0] if mm else [m['name'] for m in model['report']],
                                   'impl': mm[0][1] if mm else [m['name'] for m in data['report1']]})
+    if ctx.model_ok and model.get('classes') != data['classes']:
+        res.disagreements.append({'case': case, 'model': model.get('classes'), 'impl': data['classes']})
+    for c in data['classes']:
+        res.count('interface_class.' + (c['ic'][0] if c['ic'] else 'none'))
+        res.count('features.%d' % len(c['features']))
     # whole-module activate probes (not a (module, accessible) pair): judged here only as data for the evidence
     if judge['bad'] is not None:
         what, idx, name = judge['bad']
